@@ -473,9 +473,25 @@ fn class_has(items: &[CItem], c: char) -> bool {
     })
 }
 
+pub const STEP_LIMIT: u64 = 400_000;
+
+thread_local! {
+    /// set when a match was abandoned because the naive matcher ran out of its step budget; the
+    /// caller must then discard the case (the answer returned is meaningless)
+    pub static GAVE_UP: std::cell::Cell<bool> = std::cell::Cell::new(false);
+}
+
+pub fn take_gave_up() -> bool {
+    GAVE_UP.with(|g| g.replace(false))
+}
+
 impl<'a> Matcher<'a> {
     fn m(&mut self, re: &Re, i: usize, k: &mut dyn FnMut(&mut Self, usize) -> bool) -> bool {
         self.steps += 1;
+        if self.steps > STEP_LIMIT {
+            GAVE_UP.with(|g| g.set(true));
+            return false;
+        }
         match re {
             Re::Lit(c) => i < self.s.len() && self.s[i] == *c && k(self, i + 1),
             Re::Dot => {
@@ -745,4 +761,4 @@ pub fn gen_subject(re: &Re, src: &mut Src) -> String {
 }
 
 /// patterns invalid both in I-Regexp and for the library's engine
-pub const INVALID_PATTERNS: &[&str] = &["(", "a(", "(a", "a)", "[a", "[", "*a", "+", "a{2,1}", "a**", "\\", "(a|b", "[b-a]", "\\p{Xyz}"];
+pub const INVALID_PATTERNS: &[&str] = &["(", "a(", "(a", "a)", "[a", "[", "*a", "+", "a{2,1}", "\\", "(a|b", "[b-a]", "\\p{Xyz}", ")(", "a)(b"];
